@@ -46,7 +46,7 @@ ASSUMPTIONS = [
 ]
 REQUIRED = ["tree_resamplings", "branches_checked", "sample_points_checked", "zero_length_branches",
             "two_node_branches_longer_than_spacing", "exact_multiple_spacings", "root_one_child",
-            "non_soma_roots", "instance_reused", "branch_isometric_checked",
+            "non_soma_roots", "instance_reused", "branch_isometric_checked", "integer_coordinate_branches",
             "branch_linear_checked", "branch_smoother_checked", "tree_smoother_checked",
             "tap_assembler", "tap_resample"]
 FLOOR = {"quick": 1200, "thorough": 24000}
@@ -281,6 +281,12 @@ def exec_branch(ctx, case):
     br = brs[case["pick"] % len(brs)]
     if case.get("detached"):
         br = Branch.from_xyzr(br.xyzr().copy())
+    if case.get("int_coords"):
+        # a branch given in integer (voxel) coordinates: resampled points lie between voxels
+        xi = np.round(br.xyzr() * 2).astype(np.int64)
+        xi[:, 3] = np.maximum(xi[:, 3], 1)
+        br = Branch.from_xyzr(xi)
+        ctx.count("integer_coordinate_branches")
     poly = br.xyzr().astype(np.float64)
     fp = contracts.fingerprint(tree)
     cum = _cum(poly)
@@ -289,9 +295,11 @@ def exec_branch(ctx, case):
     op = case["op"]
     if op == "linear":
         n = case["n"]
-        out = BranchLinearResampler(n)(br)
+        if case.get("int_coords") and case.get("direct"):
+            got = np.asarray(BranchLinearResampler(n).resample(xi)).astype(np.float64)
+        else:
+            got = BranchLinearResampler(n)(br).xyzr().astype(np.float64)
         ctx.count("branch_linear_checked")
-        got = out.xyzr().astype(np.float64)
         if len(got) != n:
             return ctx.violation("linear-count", f"BranchLinearResampler({n}) returned {len(got)} "
                                                  f"points", case)
@@ -310,9 +318,11 @@ def exec_branch(ctx, case):
         d = max(case["factor"] * (L if L > 0 else 1.0), 1e-6)
         if L / d > 5000:
             d = L / 5000
-        out = BranchIsometricResampler(d)(br)
+        if case.get("int_coords") and case.get("direct"):
+            got = np.asarray(BranchIsometricResampler(d).resample(xi)).astype(np.float64)
+        else:
+            got = BranchIsometricResampler(d)(br).xyzr().astype(np.float64)
         ctx.count("branch_isometric_checked")
-        got = out.xyzr().astype(np.float64)
         m = len(got) - 1
         if m == 0:
             if L > 0:
@@ -437,7 +447,9 @@ def run(ctx):
             elif u < 8:
                 op = str(rng.choice(["linear", "isometric", "smoother"]))
                 case = {"kind": "branch", "tree": rc, "op": op, "pick": int(rng.integers(0, 1000)),
-                        "detached": bool(rng.random() < 0.5)}
+                        "detached": bool(rng.random() < 0.5),
+                        "int_coords": bool(op != "smoother" and rng.random() < 0.25),
+                        "direct": bool(rng.random() < 0.5)}
                 if op == "linear":
                     case["n"] = int(rng.choice([2, 3, 5, 50]))
                 elif op == "isometric":
